@@ -6,6 +6,8 @@
 2. TLC exports every case of the domain (direction A); the harness builds the real error, lets a
    Funcs backend return it from the carrier method below 3 real ociclient->ociserver hops and
    records what the error looks like at every level and what each client saw on the wire.
+   The domain includes a status sweep (every own status 400..599 around a no-code and a
+   custom-code error, on all three HEAD carriers and two body carriers even in the quick tier).
    The thorough tier adds seeded-random trees (nested wrappers, several joined codes, random
    statuses 400..599, random messages and JSON details) over all 18 carriers.
 3. TLC validates every recorded case against OciErrorTrace.
@@ -164,12 +166,17 @@ def run(ctx):
     # concrete carriers for the abstract kinds (quick: 1 of 15 body carriers + 1 of 3 HEAD carriers per tree, rotating)
     cases = []
     nb = nh = 0
+    nsweep = 0
     for g in gen:
         if g['kind'] == 'HEAD':
-            lst = HEAD if not quick else [HEAD[nh % 3]]
+            lst = HEAD if (not quick or g.get('sweep')) else [HEAD[nh % 3]]
             nh += 1
         else:
             lst = BODY if not quick else [BODY[(nb + nb // 15) % 15]]
+            if quick and g.get('sweep'):
+                # status sweep (every own status 400..599): two body carriers besides the three HEAD ones
+                lst = [BODY[(2 * nsweep) % 15], BODY[(2 * nsweep + 1) % 15]]
+                nsweep += 1
             nb += 1
         for c in lst:
             cases.append(dict(id=len(cases), carrier=c, hops=HOPS, err=g['err']))
